@@ -13,7 +13,7 @@ PROPERTY = "C09"
 LEVEL = "exploration"
 BUDGET_S = {"quick": 50, "thorough": 900}
 FLOOR = {"quick": 3000, "thorough": 100000}
-MUST_REACH = ("table_entries_judged", "protocol_numbers_judged", "splitter_cases_judged", "number_roundtrips_judged", "platform_switch_histories", "config_level_renderings", "protocol_reassign_histories", "generated_line_renderings", "nested_switch_renderings", "generated_protocol_lines", "returned_tables_edited_then_asked_again")
+MUST_REACH = ("table_entries_judged", "protocol_numbers_judged", "splitter_cases_judged", "number_roundtrips_judged", "platform_switch_histories", "config_level_renderings", "protocol_reassign_histories", "generated_line_renderings", "nested_switch_renderings", "generated_protocol_lines", "returned_tables_edited_then_asked_again", "version_family_tables_compared", "name_lists_judged")
 RULE = ("complete enumeration: {asa,ios,nxos} x version strings {'', '15', '15.2(02)SY', '16.09.06', '9.3(8)'} x {tcp,udp} x "
         "every table name (name -> number vs oracle/names.py; number -> rendered name -> parsed back), every protocol "
         "number 0..255 x platform x protocol_nr x has_port and every protocol name x platform, one ACE per table name on "
@@ -85,6 +85,27 @@ def run(ctx) -> None:
                 ctx.violation(case, f"PortName.{view}() answers differently after the caller edited an earlier answer",
                               {"diff_keys": sorted(map(str, set(again) ^ set(snapshot)))[:6]})
             ctx.count("returned_tables_edited_then_asked_again")
+    # 0b. every version string of one major release selects one and the same table
+    from cisco_acl import PortName as _PortName  # pylint: disable=import-outside-toplevel
+
+    for platform, family in (("ios", ["15", "15.0(1)M", "15.2(02)SY", "15.4(3)S", "15.9(3)M", "15.9(3)M10", "15.9.3"]),
+                             ("ios", ["16", "16.09.06", "16.12.4", "16.3.1a"]), ("nxos", ["9.3(8)", "9.2(1)", "9.3(10)"]),
+                             ("asa", ["9.8(4)", "9.16(1)"])):
+        for proto in ("tcp", "udp"):
+            first = None
+            for ver in family:
+                try:
+                    table = dict(_PortName(protocol=proto, platform=platform, version=ver).names())
+                except Exception as ex:  # pylint: disable=broad-except
+                    ctx.violation({"platform": platform, "version": ver}, "a version string of a known release was rejected", repr(ex))
+                    continue
+                if first is None:
+                    first = (ver, table)
+                elif table != first[1]:
+                    ctx.violation({"platform": platform, "protocol": proto, "versions": [first[0], ver]},
+                                  "two version strings of one major release select different name tables",
+                                  {"only_in_one": sorted(set(table) ^ set(first[1]))[:8]})
+                ctx.count("version_family_tables_compared")
     known = _pn.all_known_names()
     snapshot = list(known)
     try:
@@ -259,6 +280,26 @@ def run(ctx) -> None:
             ctx.count("generated_line_renderings")
             ctx.judged(sig=("range_ports", platform, proto, side), n=len(nums))
             ctx.judged(sig=("cfg", func, platform, version, proto), n=len(nums))
+
+    # 1b'. lists of names in any order on the destination side (IOS): every name is a port, none becomes an option
+    for platform, version, proto, n2p, p2n in tables:
+        if platform != "ios" or not mine():
+            continue
+        pool = sorted(n2p)
+        for _ in range(60):
+            picks = rng.sample(pool, rng.choice([2, 2, 3, 5, 8]))
+            tail = rng.choice(["", " log", " established"]) if proto == "tcp" else rng.choice(["", " log"])
+            text = f"permit {proto} any any {rng.choice(['eq', 'neq'])} {' '.join(picks)}{tail}"
+            case = {"text": text, "table": [platform, version, proto]}
+            try:
+                ace = Ace(text, platform=platform, version=version)
+                if set(ace.dstport.items) != {n2p[n] for n in picks} or ace.option.line != tail.strip():  # (two names may share a number)
+                    ctx.violation(case, "a list of table names on the destination side was not read as ports only",
+                                  {"ports": ace.dstport.items, "option": ace.option.line})
+            except Exception as ex:  # pylint: disable=broad-except
+                ctx.violation(case, "an ACE with a list of table names was rejected", f"{type(ex).__name__}: {str(ex)[:120]}")
+            ctx.count("name_lists_judged")
+        ctx.judged(sig=("name-lists", version, proto), n=60)
 
     # 1c. generated protocol lines: the switch changes the spelling of the protocol, never a number of the line
     #     (template whose sequence number equals its own protocol number; every protocol as request)
